@@ -302,9 +302,15 @@ where
 
         // 2 ----- verify the remainder polynomial of the FRI proof -------------------------------
 
-        // read the remainder polynomial from the channel and make sure it agrees with the evaluations
-        // from the previous layer.
+        // read the remainder polynomial from the channel and make sure it is the one the prover
+        // committed to (its hash is the commitment that follows the commitments to the FRI layers) and
+        // that it agrees with the evaluations from the previous layer.
         let remainder_poly = channel.read_remainder()?;
+        let remainder_commitment = H::hash_elements(&remainder_poly);
+        let num_layers = self.options.num_fri_layers(self.domain_size);
+        if self.layer_commitments.get(num_layers) != Some(&remainder_commitment) {
+            return Err(VerifierError::RemainderCommitmentMismatch);
+        }
         if remainder_poly.len() > max_degree_plus_1 {
             return Err(VerifierError::RemainderDegreeMismatch(max_degree_plus_1 - 1));
         }
